@@ -1,7 +1,7 @@
 SPECIFICATION Spec
 CONSTANTS
-  WithErr = FALSE
-  Ext = TRUE
+  WithErr = TRUE
+  Ext = FALSE
   FixTop = TRUE
   AllowAlias = FALSE
 INVARIANTS MemoSound Export
